@@ -240,7 +240,7 @@ const TRICKY: [u32; 16] =
     [0, 0x1f, 34, 48, 52, 92, 97, 117, 123, 125, 0x7e, 0x7f, 0x80, 0xFFFF, 0x10000, 0x2FFFF];
 
 pub fn run(t: &mut Trace, rng: &mut Rng, thorough: bool) {
-    t.rule = "parse: ALL texts up to length 5 (thorough: 6) over {\\,u,{,},0,2,a,F,g,3}, all `\\u`+4 and `\\u{`+4 (thorough: +5) continuations over the same alphabet, brace/plain escapes of boundary values (0, 0x7f, 0xFFFF, 0x10000, 0x2FFFE..0x30001, 0xFFFFF, 0x100000) with 1..6 digits in both cases followed by nothing / } / a digit / a backslash, seeded random texts of length 11 built from escape fragments, texts with code points above 0x2FFFF; display+roundtrip: ALL strings up to length 3 over the 16-character set {0,0x1f,\",0,4,\\,a,u,{,},0x7e,0x7f,0x80,0xFFFF,0x10000,0x2FFFF}, the printed bodies of those of length <= 2 taken as strings again (strings that spell escapes), random longer strings; char_to_smt/smt_char_as_string: 0..0x200, boundaries, > 0x2FFFF up to u32::MAX; constructors: Rust strings/chars incl. U+2FFFF, U+30000, U+10FFFF, u32 vectors incl. u32::MAX, each result followed by is_good and ReManager::str. A case counts as non-trivial when the text contains a backslash or a code point > 0x2FFFF (parse), when the string has a character that is not printed as itself (display/roundtrip); all constructor/char cases count".into();
+    t.rule = "parse: ALL texts up to length 5 (thorough: 6) over {\\,u,{,},0,2,a,F,g,3}, all `\\u`+4 and `\\u{`+4 (thorough: +5) continuations over the same alphabet, brace/plain escapes of boundary values (0, 0x7f, 0xFFFF, 0x10000, 0x2FFFE..0x30001, 0xFFFFF, 0x100000) with 1..6 digits in both cases followed by nothing / } / a digit / a backslash, seeded random texts of length 11 built from escape fragments, every printable ASCII character substituted at and inserted before every position of nine well-formed / nearly well-formed escapes, texts with code points above 0x2FFFF; display+roundtrip: ALL strings up to length 3 over the 16-character set {0,0x1f,\",0,4,\\,a,u,{,},0x7e,0x7f,0x80,0xFFFF,0x10000,0x2FFFF}, the printed bodies of those of length <= 2 taken as strings again (strings that spell escapes), random longer strings; char_to_smt/smt_char_as_string: 0..0x200, boundaries, > 0x2FFFF up to u32::MAX; constructors: Rust strings/chars incl. U+2FFFF, U+30000, U+10FFFF, u32 vectors incl. u32::MAX, each result followed by is_good and ReManager::str. A case counts as non-trivial when the text contains a backslash or a code point > 0x2FFFF (parse), when the string has a character that is not printed as itself (display/roundtrip); all constructor/char cases count".into();
     let mut cx = Ctx { rm: ReManager::new() };
 
     // ---- regression corpus (DESIGN.md §9: D4, D6)
@@ -332,6 +332,20 @@ pub fn run(t: &mut Trace, rng: &mut Rng, thorough: bool) {
             for &c in &[0xFF10u32, 0xFF21, 0xFF41, 0x0660, 0x0131, 0x212A, 0x017F] {
                 let mut w = tpl.to_vec();
                 w[pos] = c;
+                op_parse(t, &w);
+            }
+        }
+        // every printable ASCII character substituted at, and inserted before, every position
+        // (signs, the other case of `u`, `x`, blanks, quotes ... where a digit or a brace belongs)
+        for pos in 0..=tpl.len() {
+            for c in 0x20u32..0x7F {
+                if pos < tpl.len() && tpl[pos] != c {
+                    let mut w = tpl.to_vec();
+                    w[pos] = c;
+                    op_parse(t, &w);
+                }
+                let mut w = tpl.to_vec();
+                w.insert(pos, c);
                 op_parse(t, &w);
             }
         }
